@@ -17,6 +17,7 @@ package validate
 import (
 	"context"
 	"fmt"
+	"math"
 	"reflect"
 	"strings"
 	"unicode/utf8"
@@ -329,12 +330,19 @@ func MaximumNativeType(path, in string, val interface{}, maximum float64, exclus
 	kind := reflect.ValueOf(val).Type().Kind()
 	switch kind { //nolint:exhaustive
 	case reflect.Int, reflect.Int8, reflect.Int16, reflect.Int32, reflect.Int64:
+		if !isInt64Constraint(maximum) {
+			// the constraint is not an int64: compare as general numbers rather than truncate it
+			return Maximum(path, in, valueHelp.asFloat64(val), maximum, exclusive)
+		}
 		value := valueHelp.asInt64(val)
 		return MaximumInt(path, in, value, int64(maximum), exclusive)
 	case reflect.Uint, reflect.Uint8, reflect.Uint16, reflect.Uint32, reflect.Uint64:
 		value := valueHelp.asUint64(val)
 		if maximum < 0 {
 			return errors.ExceedsMaximum(path, in, maximum, exclusive, val)
+		}
+		if !isUint64Constraint(maximum) {
+			return Maximum(path, in, valueHelp.asFloat64(val), maximum, exclusive)
 		}
 		return MaximumUint(path, in, value, uint64(maximum), exclusive)
 	case reflect.Float32, reflect.Float64:
@@ -359,12 +367,19 @@ func MinimumNativeType(path, in string, val interface{}, minimum float64, exclus
 	kind := reflect.ValueOf(val).Type().Kind()
 	switch kind { //nolint:exhaustive
 	case reflect.Int, reflect.Int8, reflect.Int16, reflect.Int32, reflect.Int64:
+		if !isInt64Constraint(minimum) {
+			// the constraint is not an int64: compare as general numbers rather than truncate it
+			return Minimum(path, in, valueHelp.asFloat64(val), minimum, exclusive)
+		}
 		value := valueHelp.asInt64(val)
 		return MinimumInt(path, in, value, int64(minimum), exclusive)
 	case reflect.Uint, reflect.Uint8, reflect.Uint16, reflect.Uint32, reflect.Uint64:
 		value := valueHelp.asUint64(val)
 		if minimum < 0 {
 			return nil
+		}
+		if !isUint64Constraint(minimum) {
+			return Minimum(path, in, valueHelp.asFloat64(val), minimum, exclusive)
 		}
 		return MinimumUint(path, in, value, uint64(minimum), exclusive)
 	case reflect.Float32, reflect.Float64:
@@ -389,9 +404,16 @@ func MultipleOfNativeType(path, in string, val interface{}, multipleOf float64) 
 	kind := reflect.ValueOf(val).Type().Kind()
 	switch kind { //nolint:exhaustive
 	case reflect.Int, reflect.Int8, reflect.Int16, reflect.Int32, reflect.Int64:
+		if !isInt64Constraint(multipleOf) {
+			// the factor is not an int64: check as general numbers rather than truncate it
+			return MultipleOf(path, in, valueHelp.asFloat64(val), multipleOf)
+		}
 		value := valueHelp.asInt64(val)
 		return MultipleOfInt(path, in, value, int64(multipleOf))
 	case reflect.Uint, reflect.Uint8, reflect.Uint16, reflect.Uint32, reflect.Uint64:
+		if !isUint64Constraint(multipleOf) {
+			return MultipleOf(path, in, valueHelp.asFloat64(val), multipleOf)
+		}
 		value := valueHelp.asUint64(val)
 		return MultipleOfUint(path, in, value, uint64(multipleOf))
 	case reflect.Float32, reflect.Float64:
@@ -400,6 +422,18 @@ func MultipleOfNativeType(path, in string, val interface{}, multipleOf float64) 
 		value := valueHelp.asFloat64(val)
 		return MultipleOf(path, in, value, multipleOf)
 	}
+}
+
+// isInt64Constraint tells whether a constraint expressed as a float64 is an integer which fits an int64.
+func isInt64Constraint(f float64) bool {
+	const two63 = 9223372036854775808.0
+	return f == math.Trunc(f) && f >= -two63 && f < two63
+}
+
+// isUint64Constraint tells whether a constraint expressed as a float64 is an integer which fits a uint64.
+func isUint64Constraint(f float64) bool {
+	const two64 = 18446744073709551616.0
+	return f == math.Trunc(f) && f >= 0 && f < two64
 }
 
 // IsValueValidAgainstRange checks that a numeric value is compatible with
